@@ -364,9 +364,13 @@ func runScenario(rc *recorder, sh Shape, seed int64, maxBump, maxFail int, spawn
 		})
 	}
 	intervals := []time.Duration{0, 50 * time.Microsecond, 300 * time.Microsecond}
+	parentCancel := map[string]context.CancelFunc{}
 	for _, name := range sh.RR {
-		rr := rx.NewRerunner(context.Background(), s.compute(name), intervals[r.Intn(len(intervals))], spawn)
+		pctx, pcancel := context.WithCancel(context.Background())
+		rr := rx.NewRerunner(pctx, s.compute(name), intervals[r.Intn(len(intervals))], spawn)
 		s.rr[name] = rr
+		parentCancel[name] = pcancel
+		defer pcancel()
 		rc.mu.Lock()
 		rc.add(&Event{Ev: "rerunner", R: name, p1: rr, B1: spawn})
 		rc.mu.Unlock()
@@ -390,17 +394,19 @@ func runScenario(rc *recorder, sh Shape, seed int64, maxBump, maxFail int, spawn
 	}()
 	// a long-lived resource shared by several rerunners must keep at least one dependant while
 	// it is in use (a resource whose last dependant went away is released for good): no early Stop
+	stopStyle := []int{0, 0, 1, 2, 3}[r.Intn(5)]
 	stopEarly := r.Intn(2) == 0 && !(len(sh.RR) > 1 && len(sh.Res) > 0)
 	stopDelay := time.Duration(r.Intn(600)) * time.Microsecond
-	stopped := map[string]bool{}
+	stopped := map[string]int{}
 	var stopMu sync.Mutex
-	stop := func(name string) {
+	// Stop may be called more than once, also by callers that overlap (at most 3 times per rerunner here)
+	stopN := func(name string, atMost int) {
 		stopMu.Lock()
-		if stopped[name] {
+		if stopped[name] >= atMost {
 			stopMu.Unlock()
 			return
 		}
-		stopped[name] = true
+		stopped[name]++
 		stopMu.Unlock()
 		rc.mu.Lock()
 		rc.add(&Event{Ev: "stop.start", R: name})
@@ -409,6 +415,41 @@ func runScenario(rc *recorder, sh Shape, seed int64, maxBump, maxFail int, spawn
 		rc.mu.Lock()
 		rc.add(&Event{Ev: "stop.returned", R: name})
 		rc.mu.Unlock()
+	}
+	stop := func(name string) { stopN(name, 1) }
+	// the owner of the rerunner's context cancels it: logged and done under the recorder's lock, so that whatever
+	// the rerunner does about it is logged afterwards
+	cancelParent := func(name string) {
+		rc.mu.Lock()
+		rc.add(&Event{Ev: "parent.cancel", R: name})
+		parentCancel[name]()
+		rc.mu.Unlock()
+	}
+	// how the victim of this scenario is stopped: once; twice by overlapping callers; after its context was cancelled
+	stopVictim := func(name string) {
+		switch stopStyle {
+		case 1:
+			var w2 sync.WaitGroup
+			for k := 0; k < 2; k++ {
+				w2.Add(1)
+				go func() { defer w2.Done(); stopN(name, 3) }()
+			}
+			w2.Wait()
+		case 2:
+			cancelParent(name)
+			stopN(name, 3)
+		case 3:
+			cancelParent(name)
+			time.Sleep(time.Duration(r.Intn(300)) * time.Microsecond)
+			var w2 sync.WaitGroup
+			for k := 0; k < 2; k++ {
+				w2.Add(1)
+				go func() { defer w2.Done(); stopN(name, 3) }()
+			}
+			w2.Wait()
+		default:
+			stopN(name, 3)
+		}
 	}
 	// Stop racing a RE-run's write-then-read delay: the run holds the rerunner's lock while it sleeps, so a
 	// Stop issued at that moment has to wait for the whole run (C04: once Stop returns no run is in progress).
@@ -429,7 +470,7 @@ func runScenario(rc *recorder, sh Shape, seed int64, maxBump, maxFail int, spawn
 				once.Do(func() {
 					go func() { // quiesce() below waits for it
 						time.Sleep(300 * time.Microsecond)
-						stop(victim)
+						stopVictim(victim)
 					}()
 				})
 			}
@@ -441,7 +482,7 @@ func runScenario(rc *recorder, sh Shape, seed int64, maxBump, maxFail int, spawn
 		go func() {
 			defer wg.Done()
 			time.Sleep(stopDelay)
-			stop(victim)
+			stopVictim(victim)
 		}()
 	}
 	wg.Wait()
